@@ -18,7 +18,7 @@ from vt.build import close
 PROPERTY_ID = 'C20'
 
 RULE = ('Hypothesis draws the qubit count (1..7 for entangled states with TT ranks 1..4; up to 80 qubits for tensor products of '
-        'small entangled blocks), complex or real amplitudes, a non-empty sorted subset of measured sites and 1..200 samples; the '
+        'small entangled blocks), complex or real amplitudes, a non-empty sorted subset of measured sites and 1..200 samples (4096..10000 on some small registers); the '
         'harness normalises and right-orthonormalises the state and owns the uniform variates by handing the sampler a '
         'Hypothesis-seeded matrix through numpy.random.rand. Oracle: dense inverse-CDF sampling -- marginal of |psi|^2 over the '
         'unmeasured sites (block by block for product states), then bit by bit bit = [u > P(0 | previous bits)]; the returned '
@@ -43,6 +43,8 @@ def state_case(draw):
         n = draw(st.integers(1, 7))
         c['blocks'] = [n]
         c['rank'] = draw(st.integers(1, 4))
+        if draw(st.sampled_from([False] * 5 + [True])):
+            c['samples'] = draw(st.sampled_from([4096, 4097, 6000, 10000]))      # many shots on a small register
     elif kind == 'blocks':
         nb = draw(st.integers(2, 30))
         c['blocks'] = [draw(st.sampled_from([1, 2, 2, 3])) for _ in range(nb)]
@@ -164,6 +166,8 @@ def body(c):
         lab.add('qubits>20')
     if k > 64:
         lab.add('measured>64')
+    if N > 4096:
+        lab.add('samples>4096')
     if calls == [(N, k)]:
         want_s, want_c = np.unique(pred, return_counts=True, axis=0)
         ok = samples.shape == want_s.shape and np.array_equal(samples.astype(int), want_s) and np.allclose(freqs, want_c / N, rtol=0, atol=1e-12)
@@ -198,5 +202,5 @@ def nt(labels):
 
 SUBCHECKS = [
     Sub('sampling', state_case(), body, nt, quick=250, thorough=2500, shards_quick=8, budget_quick=150,
-        classes=['entangled', 'blocks', 'complex', 'entangled_rank>=2', 'unmeasured_sites', 'qubits>20', 'measured>64', 'exact_prediction']),
+        classes=['entangled', 'blocks', 'complex', 'entangled_rank>=2', 'unmeasured_sites', 'qubits>20', 'measured>64', 'exact_prediction', 'samples>4096']),
 ]
